@@ -297,6 +297,7 @@ class BalancingLearner(BaseLearner):
             self._cycle = itertools.cycle(range(len(self.learners)))
             for _ in range(start):
                 next(self._cycle)
+            self._cycle_position = start
 
     def _peek_cycle(self) -> int | None:
         """The index that the 'cycle' strategy will use next."""
